@@ -49,6 +49,9 @@ pub fn check(tier: Tier) -> Check {
     }
     // persistent back-pressure on the write half: causes arriving while a packet is half written
     parts.push(Part::new("C13/causes", json!({"depth": tier.pick(4, 5), "wb": true}), 1, tier.pick(40, 600)));
+    // a resumed session whose new connection announces a Maximum Packet Size below the packets to
+    // re-send (they were begun under the old connection's terms): no reason for run() to return
+    parts.push(Part::new("C13/resumed", json!({"depth": tier.pick(3, 4), "expiry": 1000, "secs_ago": 10, "m2": 12}), 0, 60));
     // value flavour (DESIGN 4): the same exploration with requests / inbound messages of unusual content
     parts.push(Part::new("C13/causes", json!({"depth": tier.pick(4, 5), "vals": 1}), tier.pick(0, 1), tier.pick(40, 600)));
     Check {
@@ -371,6 +374,9 @@ fn user_disconnect(name: String, params: Value) -> Scenario {
 }
 
 pub fn scenario(name: &str, params: &Value) -> Scenario {
+    if name == "C13/resumed" {
+        return super::c17::scenario_for("C13", name, params);
+    }
     match name {
         "C13/connect" => return connect_scenario(name.to_string(), params.clone()),
         "C13/server-disconnect" => return server_disconnect(name.to_string(), params.clone()),
